@@ -19,6 +19,7 @@ def run(rep, tier):
                    "the finder records a label for every jump opcode, unconditionally, and for no other opcode")
     rep.rule("R2", "is_jump_target is `offset in labels`, labels being the bound finder's result extended by the exception-table targets (3.11+)")
     rep.rule("R3", "the 3.13 inline-cache table used by the finders equals CPython 3.13's cache counts")
+    rep.rule("R4", "3.11+: the exception-table targets that are added to the label set are decoded as CPython decodes them (varint and entry obligations of C17-R1/R2, restated)")
     T = collect(rep, "C04", _work)
     F = T.F
     # ---- R2: provenance of `labels`
@@ -71,4 +72,10 @@ def run(rep, tier):
         if isjump or got != 0:
             rep.ob("R3", "xdis.cross_dis._get_cache_size_313", "caches:%s" % nm, got == want, expected=want, derived=got,
                    msg="3.13 inline cache entries of %s: CPython has %d" % (nm, want))
+    # ---- R4: the exception-table decoder feeding the label set (shared with C17)
+    from ..report import SubReport, merge_sub
+    from . import c17
+    sub = SubReport("C17", tier=tier)
+    c17.run(sub, tier)
+    merge_sub(rep, sub, "R4", "C17", only_rules=("R1", "R2"))
     rep.assumptions = ["reference/dis_semantics.json and opcodes/3.12.json, 3.13.json (cache counts)", "that targets are instruction starts is data-dependent and not decided"]
